@@ -310,6 +310,14 @@ def run(ctx, rep):
         isinstance(body[2], ast.Return) and A.src(body[2].value) == body[0].targets[0].id
     rep.ob("R15.6", "timed.__call__: starts the call, sets the expiry on that result, returns it", okt,
            "res = self.proxy(*args, **kwargs); res.set_expiry(self.timeout); return res" if okt else "timed.__call__ changed", ftm.loc)
+    tcls = ctx.cls("rpyc.utils.helpers.timed")
+    shared_t = [m for m in ("__new__", "__call__") if m == "__new__" and m in tcls.methods]
+    meta = [k for k in tcls.node.keywords if k.arg == "metaclass"]
+    rep.ob("R15.6", "timed: every wrapper is its own object holding its own timeout (no instance sharing)", not shared_t and not meta,
+           "timed defines no __new__/metaclass: timed(f, t1) and timed(f, t2) are distinct objects" if not shared_t and not meta else
+           "timed overrides instance creation (%s): a wrapper handed out twice is re-initialised by the second call, so results "
+           "issued through the first one expire with the second one's timeout" % (shared_t + ["metaclass"] * bool(meta)),
+           ctx.loc(tcls.node), kind="site")
     fti = ctx.func("rpyc.utils.helpers.timed.__init__")
     tp_ = A.params(fti.node)
     tset = [n for n in A.walk(fti.node) if isinstance(n, ast.Assign) and K.self_attr(n.targets[0], "timeout")]
